@@ -161,7 +161,7 @@ def _data(rnd, kind=None, D=None, N=None, E=None):
     D = D or rnd.choice([1, 2, 3])
     N = N or rnd.choice([8, 9, 12, 25, 40])
     E = E or rnd.choice([1, 2, 3])
-    kind = kind or rnd.choice(["normal", "ties", "const", "walk", "scaled"])
+    kind = kind or rnd.choice(["normal", "ties", "const", "walk", "scaled", "linear", "alt"])
     g = np.random.default_rng(rnd.randrange(10 ** 9))
 
     def series(shape):
@@ -173,6 +173,12 @@ def _data(rnd, kind=None, D=None, N=None, E=None):
             return np.cumsum(g.normal(0, 1, size=shape), axis=-2 if len(shape) > 1 else 0)
         if kind == "scaled":
             return g.normal(1e4, 1e3, size=shape)
+        if kind in ("linear", "alt"):
+            n = shape[-2]
+            base = (2.0 + 0.5 * np.arange(n)) if kind == "linear" else (5.0 + np.array([(-1.0) ** k for k in range(n)]))
+            out = np.zeros(shape)
+            out[...] = base.reshape((n, 1))
+            return out + g.integers(0, 3, size=shape[:-2] + (1, shape[-1]))
         return g.normal(0, 1, size=shape)
     return series((E, N, D)), series((N, D)), kind
 
@@ -197,25 +203,47 @@ def _c07_cases(tier, seed):
 
 
 def _c07_check(reg, case):
+    """Each case evaluates ONE loss object on data set A, then on a data set B of another shape, then on A again:
+    every value is compared with the reference (an option resolved once and kept would show on B)."""
+    cache = {}
+    msgs = []
+    for rep, salt in enumerate((0, 7919, 0)):
+        c2 = dict(case)
+        c2["rs"] = case["rs"] + salt
+        m = _c07_eval(reg, c2, cache, case["rs"])
+        if m:
+            return m + (f" [evaluation #{rep + 1} on the same loss object]" if rep else "")
+    return None
+
+
+def _c07_eval(reg, case, cache, opt_seed):
     from black_it.loss_functions.fourier import FourierLoss, gaussian_low_pass_filter, ideal_low_pass_filter
     from black_it.loss_functions.gsl_div import GslDivLoss
     from black_it.loss_functions.likelihood import LikelihoodLoss
     from black_it.loss_functions.minkowski import MinkowskiLoss
     from black_it.loss_functions.msm import MethodOfMomentsLoss
-    rnd = random.Random(case["rs"])
+    drnd = random.Random(case["rs"])
     fx = case.get("fixed") or {}
-    sim, real, kind = _data(rnd, kind="normal" if fx else None, N=fx.get("N"))
+    ornd = random.Random(opt_seed)
+    Dfix = cache.setdefault("D", ornd.choice([1, 2, 3]))
+    sim, real, kind = _data(drnd, kind="normal" if fx else None, N=fx.get("N"), D=Dfix)
     E, N, D = sim.shape
+    rnd = random.Random(opt_seed + 1)
     weights = None if rnd.random() < 0.5 else np.array([rnd.choice([0.0, 0.5, 1.0, 2.0]) for _ in range(D)])
     filters = None if rnd.random() < 0.6 else [rnd.choice([None, shift_filter, half_filter]) for _ in range(D)]
     if fx:
         weights, filters = None, None
+
+    def obj(key, make):
+        if key not in cache:
+            cache[key] = make()
+        return cache[key]
     s0, r0 = sim.copy(), real.copy()
     with warnings.catch_warnings():
         warnings.simplefilter("ignore")
         if case["loss"] == "mink":
             p = rnd.choice([1, 2, 3])
-            got = MinkowskiLoss(p=p, coordinate_weights=weights, coordinate_filters=filters).compute_loss(sim, real)
+            got = obj("L", lambda: MinkowskiLoss(p=p, coordinate_weights=weights, coordinate_filters=filters)).compute_loss(sim, real)
             exp = ref_minkowski(sim, real, p, weights, filters)
             what = f"Minkowski p={p} weights={weights} filters={'yes' if filters else None}"
         elif case["loss"] == "fourier":
@@ -223,25 +251,28 @@ def _c07_check(reg, case):
             kindf = rnd.choice(["ideal", "gauss"])
             if kindf == "gauss" and np.round(f * (N // 2 + 1)) < 1:
                 return None
-            got = FourierLoss(frequency_filter=ideal_low_pass_filter if kindf == "ideal" else gaussian_low_pass_filter,
-                              f=f, coordinate_weights=weights).compute_loss(sim, real)
+            got = obj("L", lambda: FourierLoss(frequency_filter=ideal_low_pass_filter if kindf == "ideal" else
+                                               gaussian_low_pass_filter, f=f, coordinate_weights=weights)).compute_loss(sim, real)
             exp = ref_fourier(sim, real, f, kindf, weights)
             what = f"Fourier {kindf} f={f} weights={weights}"
         elif case["loss"] == "msm":
-            if kind == "const":
-                return None  # 0/0 in the standardised / inverse-variance variants: outside 'finite, well-defined'
             cov = rnd.choice(["identity", "inverse_variance", "matrix"])
             std = rnd.random() < 0.3 and cov != "inverse_variance"
+            if kind == "const" and (cov != "identity" or std):
+                return None  # 0/0 in the standardised / inverse-variance variants: outside 'finite, well-defined'
             W = cov
             if cov == "matrix":
-                A = np.random.default_rng(rnd.randrange(10 ** 6)).normal(size=(18, 18))
+                A = np.random.default_rng(opt_seed % (10 ** 6)).normal(size=(18, 18))
                 W = A + A.T
             if cov == "inverse_variance" and E == 1:
                 return None
-            got = MethodOfMomentsLoss(covariance_mat=W, coordinate_weights=weights, standardise_moments=std
-                                      ).compute_loss(sim, real)
+            got = obj("L", lambda: MethodOfMomentsLoss(covariance_mat=W, coordinate_weights=weights,
+                                                       standardise_moments=std)).compute_loss(sim, real)
+            W = cache.setdefault("W", W)
             exp = ref_msm(sim, real, W, std, weights)
             what = f"MSM cov={cov} standardise={std} weights={weights}"
+            if np.isfinite(exp) and not np.isfinite(got):
+                return f"{what}: library returned {got!r}, the reference value is {exp!r} (data={kind}, N={N})"
             if not (np.isfinite(got) and np.isfinite(exp)):
                 return None
             if not close(got, exp, 1e-6):
@@ -249,7 +280,7 @@ def _c07_check(reg, case):
             return None
         elif case["loss"] == "lik":
             h = rnd.choice(["silverman", "scott", 0.7, 1.5])
-            got = LikelihoodLoss(h=h).compute_loss(sim, real)
+            got = obj("L", lambda: LikelihoodLoss(h=h)).compute_loss(sim, real)
             exp = ref_likelihood(sim, real, h)
             what = f"Likelihood h={h}"
         else:
@@ -260,7 +291,7 @@ def _c07_check(reg, case):
             T = N
             if (nwl or int((T - 1) / 2)) > T:
                 return None
-            got = GslDivLoss(nb_values=nbv, nb_word_lengths=nwl, coordinate_weights=weights).compute_loss(sim, real)
+            got = obj("L", lambda: GslDivLoss(nb_values=nbv, nb_word_lengths=nwl, coordinate_weights=weights)).compute_loss(sim, real)
             exp = ref_gsl(sim, real, nbv, nwl, weights)
             what = f"GSL-div nb_values={nbv} nb_word_lengths={nwl}"
             b = int((T - 1) / 2.0) if nbv is None else nbv
